@@ -38,6 +38,16 @@ def sweep(s, ro, state_xml, ctx=None, after=None):
     wit = {'type': 'state', 'xml': state_xml}
     if ctx:
         wit['context'] = ctx
+    # roID and roSlug are REQUIRED children of the running-order element; a state that lacks one (left by a
+    # roReplace that had lost it) is outside what C15 claims for ro_id / ro_slug ("absent OPTIONAL data yields None")
+    required_absent = set()
+    try:
+        rc_ = _child(ET.fromstring(state_xml), 'roCreate')
+        for acc_, tag_ in (('ro_id', 'roID'), ('ro_slug', 'roSlug')):
+            if rc_ is None or rc_.find(tag_) is None:
+                required_absent.add(acc_)
+    except ET.ParseError:
+        pass
 
     def call(obj, name, cls):
         nonlocal calls
@@ -46,6 +56,9 @@ def sweep(s, ro, state_xml, ctx=None, after=None):
             return True, getattr(obj, name)
         except Exception as e:
             s.hist['accessor_raised:%s.%s' % (cls, name)] += 1
+            if cls == 'RunningOrder' and name in required_absent and isinstance(e, AttributeError):
+                s.ooc['required header tag absent: RunningOrder.%s raises' % name] += 1
+                return False, None
             if s.prop in ('C15', ALSO.get(name)):
                 s.custom_violation('accessor-raised', {'accessor': '%s.%s' % (cls, name),
                                                        'exc': [c.__name__ for c in type(e).__mro__][:2],
@@ -89,6 +102,8 @@ def sweep(s, ro, state_xml, ctx=None, after=None):
         key = '%s:%s.%s' % (f['kind'], f['cls'], f['name'])
         if f['kind'] == 'raise':
             # already reported above when the sweep called it; internal raises are reported here
+            if f['cls'] == 'RunningOrder' and f['name'] in required_absent and 'AttributeError' in (f.get('exc') or []):
+                continue
             if s.prop in ('C15', ALSO.get(f['name'])):
                 s.custom_violation('accessor-raised', {'accessor': '%s.%s' % (f['cls'], f['name']),
                                                        'exc': f.get('exc'), 'msg': f.get('msg')}, wit,
